@@ -53,6 +53,7 @@ class Result:
         self.trace: List[str] = []
         self.error: Optional[str] = None
         self.history: list = []
+        self.lib_error: Optional[str] = None
 
 
 class Run(Oracles):
@@ -122,7 +123,13 @@ class Run(Oracles):
             w.inconclusive = str(e)
         except Exception as e:  # harness or library blew up in the driver itself
             import traceback
-            res.error = "".join(traceback.format_exception(type(e), e, e.__traceback__))[-3000:]
+            lib = [f for f in traceback.extract_tb(e.__traceback__) if "/asyncio_taskpool/" in f.filename]
+            if lib:
+                # an exception nobody documents escaped from the library into the calling step: a violation of whatever
+                # property is being checked (the runner attributes it), not a harness error
+                res.lib_error = f"{type(e).__name__}@{lib[-1].name}: {e}"[:200]
+            else:
+                res.error = "".join(traceback.format_exception(type(e), e, e.__traceback__))[-3000:]
         finally:
             w.teardown = True
             try:
